@@ -275,7 +275,7 @@ func (eng *Engine) encodeFunction(fn *ssa.Function, fc *FuncContract, extra []*C
 	for pass := 1; pass <= 4; pass++ {
 		fe = &FuncEnc{eng: eng, fn: fn, fc: fc, pre: &Prelude{declSet: map[string]bool{}}, sorts: newSorts(),
 			heapSorts: map[string]Sort{}, heapStable: map[string]bool{}, protected: map[string]types.Type{}, opCount: map[string]int{},
-			assumedCallees: map[string]bool{}, inlinedCallees: map[string]bool{}, usedContracts: map[string]bool{}, pass: pass, seqLen: map[string]string{}, linked: map[string]bool{}, storeReach: map[string][]string{}}
+			assumedCallees: map[string]bool{}, inlinedCallees: map[string]bool{}, usedContracts: map[string]bool{}, pass: pass, seqLen: map[string]string{}, linked: map[string]bool{}, storeReach: map[string][]string{}, cvSeen: map[string]bool{}}
 		for k, v := range universe {
 			fe.heapSorts[k] = v
 		}
@@ -532,7 +532,7 @@ func (eng *Engine) ifaceClausesFor(fn *ssa.Function) []*Clause {
 func (eng *Engine) encodeLemma(c *Clause, uses []string) *Oblig {
 	fe := &FuncEnc{eng: eng, pre: &Prelude{declSet: map[string]bool{}}, sorts: newSorts(),
 		heapSorts: map[string]Sort{}, heapStable: map[string]bool{}, protected: map[string]types.Type{}, opCount: map[string]int{},
-		assumedCallees: map[string]bool{}, inlinedCallees: map[string]bool{}, usedContracts: map[string]bool{}, seqLen: map[string]string{}, linked: map[string]bool{}, storeReach: map[string][]string{}}
+		assumedCallees: map[string]bool{}, inlinedCallees: map[string]bool{}, usedContracts: map[string]bool{}, seqLen: map[string]string{}, linked: map[string]bool{}, storeReach: map[string][]string{}, cvSeen: map[string]bool{}}
 	fe.top = &Frame{fe: fe, vals: map[ssa.Value]Term{}, tuples: map[ssa.Value][]Term{}}
 	st := &State{heap: map[string]string{}, alive: "true"}
 	env := &Env{fe: fe, st: st, old: st, vars: map[string]Term{}, calleeMode: true}
@@ -572,4 +572,55 @@ func (eng *Engine) encodeLemma(c *Clause, uses []string) *Oblig {
 	o.ID = fmt.Sprintf("%s:%s:lemma:%s", prop, shortPkg(c.Call), c.Label)
 	fe.pre.decls = append(fe.sorts.Decls(), fe.pre.decls...)
 	return o
+}
+
+
+// freeVarReadOnly: the captured variable behind free variable i of closure fn is written only once, by the
+// parent's initialising store in its entry block, and by no closure: its cell content is a constant of the activation.
+func (eng *Engine) freeVarReadOnly(fn *ssa.Function, i int) bool {
+	par := fn.Parent()
+	if par == nil || i >= len(fn.FreeVars) {
+		return false
+	}
+	var alloc *ssa.Alloc
+	for _, b := range par.Blocks {
+		for _, in := range b.Instrs {
+			if mc, ok := in.(*ssa.MakeClosure); ok && mc.Fn == fn && i < len(mc.Bindings) {
+				if a, ok := mc.Bindings[i].(*ssa.Alloc); ok {
+					alloc = a
+				} else {
+					return false
+				}
+			}
+		}
+	}
+	if alloc == nil || alloc.Referrers() == nil {
+		return false
+	}
+	stores := 0
+	for _, r := range *alloc.Referrers() {
+		switch x := r.(type) {
+		case *ssa.Store:
+			if x.Addr != ssa.Value(alloc) {
+				return false // address stored somewhere
+			}
+			if x.Block() != par.Blocks[0] {
+				return false
+			}
+			stores++
+		case *ssa.UnOp, *ssa.DebugRef:
+		case *ssa.MakeClosure:
+			for bi, bnd := range x.Bindings {
+				if bnd == ssa.Value(alloc) {
+					cf, ok := x.Fn.(*ssa.Function)
+					if !ok || bi >= len(cf.FreeVars) || freeVarWrittenOrLeaked(cf.FreeVars[bi], 0) {
+						return false
+					}
+				}
+			}
+		default:
+			return false
+		}
+	}
+	return stores <= 1
 }
